@@ -336,12 +336,75 @@ def rule_bits(prop, repo):
     if gb is None:
         R.fail_closed("%s:bits:get_bit" % prop, "U256::get_bit not found")
     else:
-        tb = repo.tb(gb)
-        rv = tb.return_value()
-        somes = [a for a in alts(rv) if a[0] == "agg" and a[2] == "Some"]
-        ok = len(somes) == 1 and strip(somes[0][3][0])[0] == "call" and strip(somes[0][3][0])[1].name == "get_bit" and strip(strip(somes[0][3][0])[2][1]) == ("param", 2)
-        R.check(ok, "%s:bits:get_bit" % prop, "U256::get_bit does not forward the index to BigInt::get_bit", gb.file_line(), gb.rec["path"], sample={"get_bit": "n<256 → Some(self.0.get_bit(n))"})
+        # for every index: Some(bit n&63 of limb n>>6) below 256, None from 256 on — over opaque limbs
+        from core.bytex import Machine, T, Tup, Adt as BAdt, Ref as BRef
+        bad = []
+        me = T("self")
+        same_file = (gb.rec.get("span") or {}).get("file")
+        for n in list(range(256)) + [256, 257, 1 << 20]:
+            m = Machine(F, lambda cb: (cb.rec.get("span") or {}).get("file") == same_file)
+            outs = m.run(gb, [BRef(0, 0), n], holders=[me])
+            if len(outs) == 2 and all(o.kind == "return" and len(o.pc) == 1 and o.pc[0][0] == outs[0].pc[0][0] for o in outs) and \
+                    all(isinstance(o.value, BAdt) and o.value.variant == "Some" and bool(o.value.fields[0]) == bool(o.pc[0][1]) for o in outs):
+                # the answer is an opaque predicate of the library integer: read the selected bit off the predicate
+                sel = selected_bit(outs[0].pc[0][0], me)
+                if n >= 256 or sel != (n >> 6, n & 63):
+                    bad.append((n, "answers with %r" % (outs[0].pc[0][0],)))
+                continue
+            if len(outs) != 1 or outs[0].kind != "return" or outs[0].pc:
+                bad.append((n, "outcomes %r" % (outs[:2],)))
+                continue
+            v = outs[0].value
+            if n >= 256:
+                if not (isinstance(v, BAdt) and v.variant == "None"):
+                    bad.append((n, "index ≥ 256 gives %r" % (v,)))
+                continue
+            sel = selected_bit(v.fields[0], me) if isinstance(v, BAdt) and v.variant == "Some" and v.fields else None
+            if sel != (n >> 6, n & 63):
+                bad.append((n, "returns %r (bit %s)" % (v, sel)))
+        R.check(not bad, "%s:bits:get_bit" % prop, "U256::get_bit(n) is not Some(bit n&63 of limb n>>6) for n < 256 and None beyond: %s" % bad[:3], gb.file_line(), gb.rec["path"],
+                sample={"get_bit": "all 256 indices over opaque limbs", "rows": 259})
     return R.finish()
+
+
+def selected_bit(v, me):
+    """(limb index, bit index) a boolean value term selects out of the 256-bit integer `me`, or None."""
+    from core.bytex import T
+
+    def limb(t):
+        # self.0.0[j] / self.0[j] (through Index impls) → j
+        if isinstance(t, T) and t[0] == "idx" and isinstance(t[2], int):
+            base = t[1]
+            while isinstance(base, T) and base[0] == "field":
+                base = base[1]
+            if base == me:
+                return t[2]
+        return None
+    if isinstance(v, T) and v[0] == "call" and v[1].split("::")[-1] == "get_bit" and len(v[3]) == 2 and isinstance(v[3][1], int):
+        base = v[3][0]
+        while isinstance(base, T) and base[0] == "field":
+            base = base[1]
+        if base == me:
+            return (v[3][1] >> 6, v[3][1] & 63)
+        return None
+    if isinstance(v, T) and v[0] == "binop" and v[1] in ("Eq", "Ne"):
+        x, c = v[2], v[3]
+        if isinstance(x, int):
+            x, c = c, x
+        if isinstance(x, T) and x[0] == "binop" and x[1] == "BitAnd" and isinstance(c, int):
+            y, mk = x[2], x[3]
+            if isinstance(y, int):
+                y, mk = mk, y
+            if isinstance(mk, int):
+                # ((L >> k) & 1) == 1 / != 0
+                if isinstance(y, T) and y[0] == "binop" and y[1] == "Shr" and isinstance(y[3], int) and mk == 1 and ((v[1] == "Eq" and c == 1) or (v[1] == "Ne" and c == 0)):
+                    j = limb(y[2])
+                    return (j, y[3]) if j is not None else None
+                # (L & (1 << k)) != 0 / == 1 << k
+                if mk > 0 and mk & (mk - 1) == 0 and ((v[1] == "Ne" and c == 0) or (v[1] == "Eq" and c == mk)):
+                    j = limb(y)
+                    return (j, mk.bit_length() - 1) if j is not None else None
+    return None
 
 
 def rule_comm(prop, repo):
